@@ -826,6 +826,11 @@ fn low_pattern_lens<A: Automaton>(a: &A) -> Vec<usize> {
 }
 
 fn c20_check(case: &Case, ctx: &mut Ctx) -> Result<(), String> {
+    if case.sub.starts_with("scenario:dfa-state-id-overflow") {
+        // replay of the scenario stand-in
+        let mut c = Ctx::default();
+        return c20_extra(Tier::Quick, 0, &mut c).map(|_| ()).map_err(|v| v.reason);
+    }
     let cfg = &case.cfg;
     let pats = &case.patterns;
     let s = Searcher::build(cfg, pats)?; // Err or panic => violation
